@@ -448,6 +448,14 @@ class HostileRun:
             res.add("C03", "use_after_close", f"manager used closed conn {idx} in {what}")
         # (iv) bystanders' connections are untouched
         closed = {c for (_s, c) in net.closes}
+        # a connection whose peer is gone must end up closed by the manager: one that is neither selected on any
+        # more nor closed has leaked (its descriptor is lost for the life of the process)
+        watching = {s.idx for s in getattr(w, "last_rlist", ())}
+        leaked = [s.idx for s in net.mgr_socks.values()
+                  if not s.closed and s.peer is not None and s.peer.closed and s.idx not in watching]
+        if leaked:
+            res.add("C03", "connection_leaked", f"{len(leaked)} connection(s) whose peer left (first: conn {leaked[0]}) are neither "
+                                                f"closed nor watched by the manager any more", sig="connection_leaked")
         for b in self.bystanders:
             if b.conn in closed:
                 res.add("C03", "bystander_closed", f"the manager closed the connection of well-behaved client {b.name}")
